@@ -391,6 +391,19 @@ class _ModeAtCallDomain:
         if not e0 or s is None:
             return s
         k, ks = e0.get("kind"), kids(e0)
+        if k == "ConditionalOperator":
+            # `mode == A ? f(...) : (mode == B ? g(...) : ...)`: each arm is evaluated under what its condition says about the mode
+            s = self.eval(ks[0], s)
+            out = None
+            for arm, t in ((ks[1], True), (ks[2], False)):
+                c_, tt = strip(ks[0]), t
+                while c_.get("kind") == "UnaryOperator" and c_.get("opcode") == "!":
+                    c_, tt = strip(kids(c_)[0]), not tt
+                sa = self.assume(c_, tt, s)
+                if sa is not None:
+                    ra = self.eval(arm, sa)
+                    out = ra if out is None else (out | ra if ra is not None else out)
+            return out if out is not None else s
         if k == "CallExpr":
             for a in call_args(e0):
                 s = self.eval(a, s)
